@@ -115,14 +115,43 @@ def run(tier, seed):
         hs = C.spread(hs, 1500)
     hs = hs + hb
     insts = [{"id": i + 1, "ops": h} for i, h in enumerate(hs)]
+    # two wrappers alive at once, their histories interleaved (every merge keeps each history's own order): each wrapper's
+    # calls and answers must still be a behaviour of Wrapper.tla on its own
+    import random as _r
+    prng = _r.Random(seed + 7)
+    pairs = []
+    for j in range(150 if tier == "quick" else 1500):
+        ha, hbb = prng.choice(hs), prng.choice(hs)
+        order = ["a"] * len(ha) + ["b"] * len(hbb)
+        if prng.random() < 0.5:
+            prng.shuffle(order)
+        else:        # both optimise before either reads: A..., B..., then the reads alternate
+            ta, tb = min(2, len(ha)), min(2, len(hbb))
+            order = ["a"] * (len(ha) - ta) + ["b"] * (len(hbb) - tb) + (["a", "b"] * max(ta, tb))
+            order = [x for k, x in enumerate(order)]
+            ca = cb = 0
+            fixed = []
+            for x in order:
+                if x == "a" and ca < len(ha):
+                    fixed.append("a"); ca += 1
+                elif x == "b" and cb < len(hbb):
+                    fixed.append("b"); cb += 1
+            order = fixed + ["a"] * (len(ha) - ca) + ["b"] * (len(hbb) - cb)
+        pairs.append({"id": 800000 + j, "ops_a": ha, "ops_b": hbb, "order": order})
     gad = gadget_instances(tier)
     for j, g in enumerate(gad):
         g["id"] = len(insts) + j + 1
     sc = vlib.scratch_dir()
     src, dst = os.path.join(sc, "i.ndjson"), os.path.join(sc, "o.ndjson")
-    vlib.write_ndjson(src, insts + gad)
+    vlib.write_ndjson(src, insts + gad + pairs)
     vlib.run_harness("drive_wrapper.py", [src, dst])
-    recs = vlib.read_ndjson(dst)
+    recs = []
+    for r in vlib.read_ndjson(dst):
+        if r.get("pair"):
+            recs += [r["a"], r["b"]]
+            res.count_class("interleaved_wrapper_pairs")
+        else:
+            recs.append(r)
     shutil.rmtree(sc, ignore_errors=True)
     hrecs = [r for r in recs if "ops" in r]
     grecs = [r for r in recs if "gadget" in r]
